@@ -79,9 +79,9 @@ Fixpoint sstoks (l : list stmt) (k : list token) : list token :=
 Definition sal_toks (z : Z) (k : list token) : list token :=
   if z <? 0 then TMinus :: TInt (- z) :: k else TInt z :: k.
 
-(* rule NAME "desc" salience N { when e then s; ... } *)
+(* rule NAME "desc" salience N { when e then s; ... }   — the description escaped like a string constant *)
 Definition rtoks (r : rule) (k : list token) : list token :=
-  TRule :: TName (rname r) :: TStr true (rdesc r) :: TSalience ::
+  TRule :: TName (rname r) :: TStr true (quote_body (rdesc r)) :: TSalience ::
   sal_toks (rsal r) (TLBrace :: TWhen :: etoks (rwhen r) (TThen :: sstoks (rthen r) (TRBrace :: k))).
 
 Fixpoint rstoks (rs : list rule) : list token :=
@@ -207,7 +207,7 @@ Definition wf_stmt (s : stmt) : bool :=
   end.
 
 Definition wf_rule (r : rule) : bool :=
-  wf_ident (rname r) && desc_ok (rdesc r) && in_i32 (rsal r) &&
+  wf_ident (rname r) && in_i32 (rsal r) &&
   wf_expr (rwhen r) && forallb wf_stmt (rthen r) && negb (match rthen r with [] => true | _ => false end).
 
 Definition wf_rules (rs : list rule) : bool := forallb wf_rule rs && nodup_str (rule_names rs).
